@@ -6,6 +6,7 @@ CONSTANTS MaxBuild = 2
           JoinTypes = {1, 2, 3, 4, 5, 6}
           MissingFile = TRUE
           SilentOuter = FALSE
+          HashAll = FALSE
           EmitMod = 1000000
 INIT Init
 NEXT Next
